@@ -23,4 +23,6 @@ def watchdog(pid, stage, tier):
 
 
 def det_slice(pid, stage):
-    return {"C19": 300, "C04": 2000}.get(pid, 300)
+    if pid == "C17":
+        return {"L1": 120, "L2": 24, "L3": 16}.get(stage, 16)
+    return {"C19": 300, "C04": 2000, "C01": 100, "C02": 100, "C03": 100, "C12": 200}.get(pid, 300)
